@@ -60,3 +60,7 @@ Definition init_enabled (taken : list name) (n : ncls) : list name :=
                                && match n_overflow n with
                                   | Some o => negb (String.eqb (n_name a) o)
                                   | None => true end) (n_attrs n)).
+
+(* which generated methods document nested-attribute keywords at all *)
+Definition takes_nested (m : mkind) : bool :=
+  match m with MTopReset | MReset | MElemWithout _ => false | _ => true end.
